@@ -331,7 +331,11 @@ _orig_add = Hooks.add_to_stats
 
 def _rec_add(self, value, **kw):
     _orig_add(self, value, **kw)
-    nr = self._Hooks__num_restarts
+    nr = getattr(self, '_Hooks__num_restarts', None)
+    if nr is None:  # (private counter renamed: read the restart count from the key the value was stored under)
+        for k, v in self.return_stats().items():
+            if v is value and k.type == kw.get('type') and k.time == kw.get('time') and k.iter == kw.get('iter') and k.level == kw.get('level'):
+                nr = k.num_restarts
     CALLS['add'].append((type(self).__name__, kw.get('type'), kw.get('time'), kw.get('level'), kw.get('iter'), nr, CALLS.get('attempt', 0), kw.get('process'),
                          kw.get('sweep'), kw.get('process_sweeper')))
 
